@@ -4,13 +4,16 @@ import math
 import os
 import re
 import struct
+import sys as _sys
 
 from .. import common
 from ..common import log
+from . import c08_esc
 
 # ---------------------------------------------------------------------------------------------
 # formula trees: ('i', n) ('f', n64) ('s', text) ('u', op, e) ('b', op, l, r) ('c', fn, [args])
 #                ('sq', tree): the same formula with its string constants spelled as character constants '...'
+#                ('e', 'D'|'S', [item tokens]): a string / character constant written with escape sequences (see ESC below)
 
 M64 = (1 << 64) - 1
 INT_POOL = [0, 1, 2, 3, 4, 5, 7, 8, 9, 15, 16, 31, 32, 33, 63, 64, 65, 97, 127, 128, 255, 256, 65535, 65536,
@@ -45,6 +48,8 @@ def ser(t):
         return "f:%d" % t[1]
     if k == "s":
         return "s:" + (t[1].encode().hex() or "-")
+    if k == "e":
+        return "e:" + "/".join([t[1]] + list(t[2]))
     if k == "u":
         return "u:%s %s" % (t[1], ser(t[2]))
     if k == "b":
@@ -68,6 +73,9 @@ def parse_prefix(line):
             return ("f", int(v)), i + 1
         if k == "s":
             return ("s", bytes.fromhex(v if v != "-" else "").decode()), i + 1
+        if k == "e":
+            parts = v.split("/")
+            return ("e", parts[0], [x for x in parts[1:] if x]), i + 1
         if k == "u":
             e, j = go(i + 1)
             return ("u", v, e), j
@@ -377,6 +385,10 @@ FINDING_PROBES = [
     ("function-type-error-reported-as-internal-error", "c1:bitcnt f:96"),
     ("string-operand-not-convertible", "b:mul s:68656c6c6f i:2"),
     ("string-operand-not-convertible", "b:sub f:96 s:6162636465"),
+    ("charfromstr-8bit-character-negative", "c2:charfromstr e:D/x20200 i:0"),
+    ("charfromstr-8bit-character-negative", "c2:charfromstr e:D/p61/d255 i:1"),
+    ("string-order-8bit-characters-signed", "b:gt e:D/d136 e:D/x21120"),
+    ("string-order-8bit-characters-signed", "b:le e:D/p61/x23141/c62 e:S/p61/d125"),
 ]
 # the seven demo formulas of the class "a string meets a float" and their single-step neighbours
 CORPUS_MIX = [
@@ -393,7 +405,11 @@ CALIB = [("potBase", "(-2.0)^3.0", "16"), ("firstbitSkip", "firstbit(1)", str(M6
          ("mirrorInt", "$80000001><32", str(0xFFFFFFFF80000001)), ("shrArith", "(-1)>>1", str(M64)),
          ("singleBitArith", "bitpos($8000000000000000)", "error"),
          # function branch: is a string argument of a numeric parameter converted? is a type error of an argument reported as "internal error"?
-         ("fnStrConv", 'toupper("a")', "65"), ("fnErrRaw", "bitcnt(1.5)", "internal")]
+         ("fnStrConv", 'toupper("a")', "65"), ("fnErrRaw", "bitcnt(1.5)", "internal"),
+         # CHARFROMSTR on a character 128..255: the (signed) char converted to an integer?
+         ("charSigned", 'charfromstr("\\xC8",0)', str(M64 - 55)),
+         # order of strings with characters 128..255: compared as signed characters?
+         ("strCmpSigned", '"\\x88">"x"', "0")]
 
 ERRCLASS = {1310: "divZero", 1320: "overRange", 1315: "overRange", 1540: "notOneBit", 1110: "argCnt", 1490: "funcArgCnt",
             1860: "unknownFunc", 1870: "funcArg", 1880: "floatOvf", 1890: "argPair", 1300: "bracket", 1010: "symbol", 1020: "symbol",
@@ -404,10 +420,16 @@ for _n in range(1130, 1150):
 ERR_RE = re.compile(rb"^> > > [^(]*\((\d+)\)(?::\d+)?: error #(\d+)", re.M)
 
 
-def run_asl_cases(bdir, wd, texts, tag, stats):
+PROBE_RE = re.compile(rb"^@(\d+)@P(\d+) (.*)$")
+
+
+def run_asl_cases(bdir, wd, texts, tag, stats, probes=None):
     """texts: list of expression texts. Returns list of outcomes:
-    ('val', str) | ('err', class, number) | ('crash', status) | ('missing',)"""
+    ('val', str) | ('err', class, number) | ('crash', status) | ('missing',)
+    probes[i] = n: the value of case i is expected to be a string with characters that cannot be printed by MESSAGE
+    (control characters, 8-bit characters): it is read through EXPRTYPE, STRLEN and CHARFROMSTR(.., 0..n-1) instead"""
     out = [None] * len(texts)
+    probes = probes or [None] * len(texts)
 
     def run(idxs, level):
         # "internal error" ends the assembly: the cases behind it are run again (a loop, there may be thousands of them)
@@ -418,16 +440,26 @@ def run_asl_cases(bdir, wd, texts, tag, stats):
         src = ["\tcpu 68000", "\toutradix 10"]
         owner = {}
         via_set = set()
+        probed = {}
         for k, i in enumerate(idxs):
             if "\\" in texts[i] or "'" in texts[i]:
                 # a formula with escape sequences cannot stand inside the outer string of MESSAGE (that string's own
                 # escape processing would come first): evaluate it by SET and print the symbol
                 src.append("c08v%d\tset %s" % (k, texts[i]))
                 owner[len(src)] = k
+                via_set.add(k)
+                if probes[i] is not None:
+                    src.append('\tmessage "@%d@P0 \\{defined(c08v%d)}#\\{exprtype(c08v%d)}#\\{strlen(c08v%d)}"' % (k, k, k, k))
+                    owner[len(src)] = k
+                    for j in range(0, probes[i], 6):
+                        src.append('\tmessage "@%d@P%d %s"' % (k, 1 + j // 6, "#".join(
+                            "\\{charfromstr(c08v%d,%d)}" % (k, x) for x in range(j, min(j + 6, probes[i])))))
+                        owner[len(src)] = k
+                    probed[k] = probes[i]
+                    continue
                 # (a formula without value leaves the symbol undefined, which would print as 0: DEFINED tells)
                 src.append('\tmessage "@%d@ \\{defined(c08v%d)}\\{c08v%d}"' % (k, k, k))
                 owner[len(src)] = k
-                via_set.add(k)
             else:
                 src.append('\tmessage "@%d@ \\{%s}"' % (k, texts[i]))
                 owner[len(src)] = k
@@ -455,7 +487,12 @@ def run_asl_cases(bdir, wd, texts, tag, stats):
             if ln in owner:
                 errs.setdefault(owner[ln], num)
         vals = {}
+        plines = {}
         for line in so.split(b"\n"):
+            m = PROBE_RE.match(line)
+            if m:
+                plines.setdefault(int(m.group(1)), {})[int(m.group(2))] = m.group(3).decode("latin-1")
+                continue
             m = re.match(rb"^@(\d+)@ (.*)$", line)
             if m:
                 k, v = int(m.group(1)), m.group(2).decode("latin-1")
@@ -464,6 +501,26 @@ def run_asl_cases(bdir, wd, texts, tag, stats):
                         continue
                     v = v[1:]
                 vals[k] = v
+        for k, n in probed.items():
+            pl = plines.get(k, {})
+            head = pl.get(0, "").split("#")
+            if len(head) != 3 or head[0] != "1":
+                continue
+            if head[1] != "2" or not head[2].isdigit():
+                vals[k] = "<a value of type %s, not a string>" % head[1]
+                continue
+            codes = []
+            for j in sorted(x for x in pl if x > 0):
+                codes += [int(x) if x.isdigit() else -1 for x in pl[j].split("#")]
+            ln = int(head[2])
+            # (CHARFROMSTR delivers the characters 128..255 as -128..-1 on the pinned tree - finding
+            #  `charfromstr-8bit-character-negative`, judged on formulas that call CHARFROMSTR; as an instrument it is read modulo 256
+            #  inside the string, where STRLEN says there is a character)
+            codes = [(c - (1 << 64) + 256 if (j < ln and c >= (1 << 64) - 128) else c) for j, c in enumerate(codes)]
+            if ln > len(codes) or any(not 0 <= c <= 255 for c in codes[:ln]) or any(c != M64 for c in codes[ln:]):
+                vals[k] = "<a string of %d characters: %s>" % (ln, " ".join(str(c) for c in codes))
+            else:
+                vals[k] = "".join(chr(c) for c in codes[:ln])
         fatal_at = None
         for k, i in enumerate(idxs):
             if k in errs:
@@ -750,6 +807,16 @@ def signature(tree, model_of, row=None):
         op = tree[1]
         lv, rv = model_of(tree[2]), model_of(tree[3])
         li, ri = nval(lv), nval(rv)
+        sl, sr = str_of_res(lv), str_of_res(rv)
+        if op in ("lt", "le", "gt", "ge") and sl is not None and sr is not None:
+            # the order by character code and the order by signed characters disagree
+            def sgn(x):
+                return (x > 0) - (x < 0)
+            us = sgn((sl > sr) - (sl < sr))
+            sg = [ord(c) - 256 if ord(c) >= 128 else ord(c) for c in sl], [ord(c) - 256 if ord(c) >= 128 else ord(c) for c in sr]
+            ss = sgn((sg[0] > sg[1]) - (sg[0] < sg[1]))
+            if us != ss:
+                return "string-order-8bit-characters-signed"
         if op == "pow" and lv and rv and (lv[0] == "F" or rv[0] == "F"):
             base = f64_of_bits(lv[1:]) if lv[0] == "F" else (signed(li) if li is not None else 0)
             if base < 0:
@@ -774,6 +841,9 @@ def signature(tree, model_of, row=None):
         a = ival(model_of(tree[2][1]))
         if a is not None and (1 << 32) <= a < (1 << 63):
             return "charfromstr-position-truncated"
+        sv = str_of_res(model_of(tree[2][0]))
+        if a is not None and sv is not None and a < len(sv) and ord(sv[a]) >= 128:
+            return "charfromstr-8bit-character-negative"
     if k == "c" and tree[1] == "int":
         a = model_of(tree[2][0])
         if a and a[0] == "F" and f64_of_bits(a[1:]) == 9223372036854775808.0:
@@ -803,7 +873,13 @@ def evaluate(bdir, wd, quirks, trees, tag, stats):
     normal = [r for r in ok_rows if r["model"] not in ("Eub", "Einternal")]
     ub = [r for r in ok_rows if r["model"] == "Eub"]
     fatal = [r for r in ok_rows if r["model"] == "Einternal"]
-    reals = run_asl_cases(bdir, wd, [r["text"] for r in normal], tag, stats)
+    def probe_of(r):
+        # a string with control / 8-bit characters is predicted: read it character by character
+        ps = [x for x in (str_of_res(r["spec"]), str_of_res(r["model"])) if x is not None]
+        if ps and "\\" in r["text"] and any(ord(c) < 32 or ord(c) > 126 for x in ps for c in x):
+            return max(len(x) for x in ps) + 1
+        return None
+    reals = run_asl_cases(bdir, wd, [r["text"] for r in normal], tag, stats, [probe_of(r) for r in normal])
     for r, o in zip(normal, reals):
         r["real"] = o
     for r, o in zip(ub, run_asl_cases(bdir, wd, [r["text"] for r in ub], tag + "ub", stats)):
@@ -832,7 +908,7 @@ def run(args):
         cal = run_asl_cases(bdir, wd, [c[1] for c in CALIB], "cal", stats)
         quirks = "".join("1" if ((o[0] == "val" and o[1].strip() == c[2]) or (c[2] == "error" and o[0] == "err")
                                  or (c[2] == "internal" and o[0] == "err" and o[1] == "internal")) else "0" for c, o in zip(CALIB, cal))
-        res.notes.append("quirk flags calibrated on the real binary (potBase firstbitSkip mirrorInt shrArith singleBitArith fnStrConv fnErrRaw) = " + quirks)
+        res.notes.append("quirk flags calibrated on the real binary (potBase firstbitSkip mirrorInt shrArith singleBitArith fnStrConv fnErrRaw charSigned strCmpSigned) = " + quirks)
 
         # ---- generated trees
         n = {"quick": 9000, "thorough": 90000}[args.tier]
@@ -840,7 +916,7 @@ def run(args):
         g = Gen(rng)
         trees = []
         if drv_ok:
-            for line in CORPUS + CORPUS_MIX + [p[1] for p in FINDING_PROBES]:
+            for line in CORPUS + CORPUS_MIX + c08_esc.ESC_CORPUS + c08_esc.RANK_CORPUS + [p[1] for p in FINDING_PROBES]:
                 trees.append(("corpus", line))
             cdir = os.path.join(common.VERIF, "corpus", "C08")
             if os.path.isdir(cdir):
@@ -882,6 +958,19 @@ def run(args):
                 t = ("sq", t)
             gen_trees.append(t)
         dist["mix_operand_type_pairs"] = dict(sorted(gm.pairs.items()))
+        # ---- string / character constants written with escape sequences, in formulas (vlib/props/c08_esc.py)
+        eg = c08_esc.EscGen(common.rng_for(args.seed, "C08esc"))
+        n_esc = {"quick": 1600, "thorough": 16000}[args.tier]
+        for i in range(n_esc):
+            gen_trees.append(eg.formula())
+        dist["escape_formulas"] = n_esc
+        # ---- operator ranks: both groupings of `a op1 b op2 c` / `op a op2 b` for every ordered pair of operators, with
+        #      operands that tell the groupings apart (rank table from the Lean SPEC)
+        rank_cases = []
+        if drv_ok:
+            ops = c08_esc.parse_ops(common.driver("c08ops", ["-"])[0])
+            rank_cases = c08_esc.rank_trees(common.rng_for(args.seed, "C08rank"), ops, {"quick": 2, "thorough": 8}[args.tier])
+            gen_trees += [t for _, _, t in rank_cases]
         # corpus lines are already serialised: wrap them so that `ser` passes them through
         all_trees = [parse_prefix(l) for _, l in trees] + gen_trees
         dist["corpus"] = len(trees)
@@ -917,6 +1006,19 @@ def run(args):
                 samples.append(dict(text=r["text"], asl=show_real(r["real"]), model=r["model"], spec=r["spec"]))
             if not spec_ok or not model_ok:
                 failing.append((r, spec_ok, model_ok))
+
+        # ---- operator ranks: which ordered pairs did the generated operands discriminate (by the SPEC's values)?
+        spec_of = {r["req"]: r["spec"] for r in rows}
+        pairs_all, pairs_disc = set(), set()
+        for j in range(0, len(rank_cases), 2):
+            (key, _, tl), (_, _, tr) = rank_cases[j], rank_cases[j + 1]
+            pairs_all.add(key)
+            vl, vr = spec_of.get(quirks + " " + ser(tl)), spec_of.get(quirks + " " + ser(tr))
+            if vl and vr and vl[0] == "I" and vr[0] == "I" and vl != vr:
+                pairs_disc.add(key)
+        dist["rank_formulas"] = len(rank_cases)
+        dist["rank_operator_pairs_with_discriminating_operands"] = len(pairs_disc)
+        dist["rank_operator_pairs_generated"] = len(pairs_all)
 
         # ---- shrink: evaluate every subformula of the failing generated cases, keep minimal failing ones
         sub = []
@@ -1005,6 +1107,30 @@ def run(args):
                 corr_fail.append(dict(sig=None, text=t, asl=show_real(o), model=mv, why="model and real assembler disagree on a text outside the rendered grammar"))
 
         if drv_ok:
+            # ---- string constants in data statements (DB on a byte-organised target)
+            dg = c08_esc.EscGen(common.rng_for(args.seed, "C08escdata"))
+            consts = []
+            for i in range({"quick": 300, "thorough": 3000}[args.tier]):
+                t = dg.hexrun() if i % 2 else dg.const(n=None)
+                if t[1] == "S" and len(c08_esc.const_codes(t)) != 1:
+                    t = ("e", "D", dg.items_for(c08_esc.const_codes(t) or [65], "D", brace=False))
+                if not c08_esc.const_codes(t):
+                    continue
+                consts.append(t)
+            n_data = c08_esc.data_statements(_sys.modules[__name__], bdir, wd, quirks, consts, stats, spec_fail, corr_fail, samples)
+            n_eval += n_data
+            dist["escape_data_statements"] = n_data
+            for k, v in dg.dist.items():
+                if isinstance(v, dict):
+                    for k2, v2 in v.items():
+                        if isinstance(v2, dict):
+                            for k3, v3 in v2.items():
+                                eg.dist[k][k2][k3] = eg.dist[k][k2].get(k3, 0) + v3
+                        else:
+                            eg.dist[k][k2] = eg.dist[k].get(k2, 0) + v2
+                else:
+                    eg.dist[k] = eg.dist.get(k, 0) + v
+            dist["escape_constants"] = eg.dist
             n_eval += literal_sweep(bdir, wd, common.rng_for(args.seed, "C08lit"), args.tier, stats, dist, spec_fail, corr_fail, samples)
 
     res.coverage = common.proof_coverage(audit, "C08", [
@@ -1012,6 +1138,9 @@ def run(args):
         "automatic type conversion: C08_promotion_table/_unary/_convert_step/_string_meets_float tie TryConvert/BestOpMatch/TempResultToInt/ToFloat to the SPEC's promotion rule (proved); "
         "the operator x type x type sweep and the mixed trees are the differential part",
         "correspondence: real asl (`message \"\\{expr}\"`, outradix 10) vs Lean tokeniser+token machine on the text rendered by the Lean SPEC render (differential test)",
+        "string constants: C08_strings_numeric_escape / _escape_width / _value / _scan / _lex (Props/C08_Strings.lean) tie ProcessBk, ConstStringVal and the quote scan to the "
+        "SPEC's item lists for every well-formed constant (proved; the value of the formula inside \\{...} is a hypothesis there and part of the differential test); "
+        "escape constants in formulas and in DB statements, and the rank-discriminating formulas, are the differential part",
         "Lean `Float` (opaque to the kernel) for float-valued cases: structural only, compared with 1e-9 relative tolerance"])
     dist.update(stats)
     by_sig = {}
@@ -1027,7 +1156,11 @@ def run(args):
         rule="expression trees of depth 1..6 over the manual's operator table and integer/float/string functions, operands from boundary pools "
              "(0, +-1, 2^31, 2^63-1, -2^63, powers of two, multiples of 1/64 as floats); mixed operand types: every dyadic operator x {string, integer, float}^2 "
              "and every numeric function x argument type (character constants and multi character constants of 1..4 random characters, a few without integer "
-             "value, in double and in single quotes), plus random trees over them; non-trivial = contains an operator or call; distinct by rendered text",
+             "value, in double and in single quotes), plus random trees over them; string / character constants spelled with every escape form of the manual "
+             "(abbreviations in both cases, decimal / \\x hexadecimal / \\0 octal numbers with every digit count, followed by digits, hex letters, other characters, escapes or the end "
+             "of the constant, \\{expr}) under STRLEN, CHARFROMSTR, SUBSTR, STRSTR, UPSTRING/LOWSTRING, comparisons, concatenation, conversion to integer, and as DB operands; "
+             "for every ordered pair of operators both groupings of `a op1 b op2 c` / `op a op2 b` with operands that give the groupings different values; "
+             "non-trivial = contains an operator or call; distinct by rendered text",
         samples=samples, distribution=dist)
     res.assumptions = ["the text sent to the real assembler is produced by the Lean SPEC `render`; the Lean model tokenises that same text",
                        "error classes are compared through the first error number the assembler reports for the line",
@@ -1035,6 +1168,10 @@ def run(args):
                        "READING: a string (1..4 characters) where a number is expected is its integer value, also as argument of a built-in function and also when the other operand is a float "
                        "(then promoted to float: 'A'*1.5 = 97.5); a string without integer value there is a type error",
                        "formulas that contain an apostrophe or a backslash are evaluated through SET and printed with DEFINED(sym) in front, so that a formula without value is not read as 0",
+                       "a string value with control or 8-bit characters is read through EXPRTYPE, STRLEN and CHARFROMSTR of the SET symbol instead of being printed "
+                       "(CHARFROMSTR results 2^64-128..2^64-1 inside the string are taken modulo 256 there: finding charfromstr-8bit-character-negative is judged on formulas that call CHARFROMSTR)",
+                       "READING: the formula inside \\{...} of a string constant is written with the digits of the 64-bit pattern under OUTRADIX 10 (the generator keeps these values below 2^63)",
+                       "data statements: DB on the Z80 target lays down the characters of a string constant unchanged (no CHARSET); used as a second observation channel for constants",
                        "a failing formula is reported through its minimal failing subformulas (no proper subformula fails); a failure above a failing subformula is attributed to that subformula",
                        "float texts printed by asl are trusted to 100 units of the last significant digit when 12+ digits are printed (FloatString shortens to 18 characters), else to 1e-14 relative"]
     return common.conclude(res, proof_problems, spec_fail, corr_fail, n_eval)
@@ -1043,12 +1180,25 @@ def run(args):
 def replay(args):
     d = json.load(open(args.replay))
     print(json.dumps({k: (v if len(str(v)) < 2000 else str(v)[:2000] + "...") for k, v in d.items()}, indent=1))
+    if d.get("cpu") == "z80" and str(d.get("text", "")).startswith("db "):
+        bdir = common.repo_build("hooks")
+        with common.Workdir("c08r") as wd:
+            f = os.path.join(wd, "rp.asm")
+            open(f, "w").write("\tcpu z80\n\toutradix 10\n\torg 0\n\t%s\n" % d["text"])
+            rc, so, se = common.run_tool(bdir, "asl", ["-q", "-n", f, "-o", f[:-4] + ".p"], wd)
+            recs = common.parse_pfile_py(open(f[:-4] + ".p", "rb").read()) if os.path.exists(f[:-4] + ".p") else None
+            print("asl now: status", rc, (se + so).decode("latin-1")[:300], "bytes", [r[5].hex() for r in (recs or []) if r[0] == "D"])
+            if d.get("formula"):
+                print("driver :", common.driver("c08", [d["formula"]])[0])
+        return 0
     if "text" in d and d["text"]:
         bdir = common.repo_build("hooks")
         with common.Workdir("c08r") as wd:
             st = dict(asl_runs=0, crashes=0, fatal_aborts=0)
-            o = run_asl_cases(bdir, wd, [d["text"]], "rp", st)[0]
-            print("asl now:", show_real(o))
+            ps = str_of_res(d.get("spec")) if isinstance(d.get("spec"), str) else None
+            probe = len(ps) + 1 if ps is not None and "\\" in d["text"] and any(ord(c) < 32 or ord(c) > 126 for c in ps) else None
+            o = run_asl_cases(bdir, wd, [d["text"]], "rp", st, [probe])[0]
+            print("asl now:", show_real(o) if probe is None else "value (character codes) " + " ".join(str(ord(c)) for c in o[1]) if o[0] == "val" else show_real(o))
             if d.get("formula"):
                 print("driver :", common.driver("c08", [d["formula"]])[0])
     return 0
